@@ -13,8 +13,8 @@ import (
 	"context"
 
 	"github.com/gagliardetto/solana-go"
-	"github.com/rpcpool/yellowstone-faithful/radiance/genesis"
 	old_faithful_grpc "github.com/rpcpool/yellowstone-faithful/old-faithful-proto/old-faithful-grpc"
+	"github.com/rpcpool/yellowstone-faithful/radiance/genesis"
 )
 
 // verifC02Scene is one generated server state with a designated archived block.
@@ -144,7 +144,7 @@ func verifC02BlockScene(symHash bool) *verifC02Scene {
 	nData, nMeta := verifParam("dataLen", 2), verifParam("metaLen", 2)
 	if header {
 		b.blocktime = uint64(verifU32("blocktime"))
-		b.hasHeight = verifChoice("hasHeight", 2) == 1
+		b.hasHeight = verifChoice("hasHeight", verifParam("heightModes", 2)) == 1
 		if b.hasHeight {
 			b.height = verifU64("height")
 			verifAssume(b.height < 1<<62)
@@ -162,7 +162,7 @@ func verifC02BlockScene(symHash bool) *verifC02Scene {
 	if !genesisBlock {
 		p := &verifC02Block{slot: b.parent, parent: 0, blocktime: 5}
 		pshape := []int{1}
-		if header && verifChoice("parentEntries", 2) == 1 {
+		if header && verifChoice("parentEntries", verifParam("parentEntryModes", 2)) == 1 {
 			pshape = []int{0, 1}
 		}
 		verifC02BuildBlock(a, p, pshape, true, 0, 1, 0, false, symHash)
@@ -184,6 +184,14 @@ func verifC02BlockScene(symHash bool) *verifC02Scene {
 
 func VerifC02GrpcBlock() {
 	sc := verifC02BlockScene(true)
+	if verifC02GrpcBlockOracle(sc) {
+		verifReach("end")
+	}
+}
+
+// verifC02GrpcBlockOracle calls the real gRPC GetBlock for the scene's block and checks the answer
+// against the archive; it returns false when the path ended early (after a failed assertion).
+func verifC02GrpcBlockOracle(sc *verifC02Scene) bool {
 	b := sc.b
 	sameEpochParent := b.slot != 0 && b.parent >= sc.a.lo()
 	// S13: a block above slot 1 whose parent is slot 0 gets no previous blockhash
@@ -192,7 +200,7 @@ func VerifC02GrpcBlock() {
 	resp, err := sc.multi.GetBlock(context.Background(), &old_faithful_grpc.BlockRequest{Slot: b.slot})
 	verifAssert(err == nil, "C02.grpcBlock: archived block is answered with an error")
 	if err != nil {
-		return
+		return false
 	}
 	verifAssert(resp.Slot == b.slot, "C02.grpcBlock: wrong slot")
 	verifAssert(resp.ParentSlot == b.parent, "C02.grpcBlock: wrong parent slot")
@@ -221,13 +229,13 @@ func VerifC02GrpcBlock() {
 	// transactions: all of them, each once, in recorded position order, with their own payloads
 	verifAssert(len(resp.Transactions) == len(sc.txs), "C02.grpcBlock: number of transactions differs from the archive")
 	if len(resp.Transactions) != len(sc.txs) {
-		return
+		return false
 	}
 	for i, r := range resp.Transactions {
 		if sc.hasPos {
 			verifAssert(r.Index != nil, "C02.grpcBlock: recorded position missing from the response")
 			if r.Index == nil {
-				return
+				return false
 			}
 			if i > 0 {
 				verifAssert(*resp.Transactions[i-1].Index < *r.Index, "C02.grpcBlock: transactions not in ascending position order")
@@ -245,7 +253,7 @@ func VerifC02GrpcBlock() {
 			verifAssert(bytes.Equal(r.Meta, t.meta.want), "C02.grpcBlock: metadata bytes differ from the archive")
 		}
 	}
-	verifReach("end")
+	return true
 }
 
 // C02.grpcBlockFetchFail — a transaction node of the requested block cannot be read (I/O error of the
